@@ -294,7 +294,138 @@ func init() {
 		fmt.Fprintf(&e.out, "/-- frameworkImpl.Evictor() returns a new proxy per call -/\ndef evictorFreshPerCall : Bool := %v\n", fresh)
 		fmt.Fprintf(&e.out, "/-- the lock taken by evictorProxy.Evict (%v) is one object for all callers of handle.Evictor().Evict -/\ndef proxyLockShared : Bool := %v\n", w.lockExpr, shared)
 		e.c16ArbFacts()
+		e.c16ExistingLookupFacts()
+		e.c16CycleFacts()
 	}
+}
+
+// ---- existingPodMigrationJob (filter.go): which index lookups it makes and under which guard.  Every mention of a job
+// index constant is recorded in source order as (index, guard): index 1 = IndexJobByPodUID, 2 = IndexJobPodNamespacedName;
+// guard 0 = unconditional, 1 = under an if whose condition does not look at a UID (the `if !existing` fall-back, either
+// branch), 2 = under an if / else whose condition mentions a UID (the lookup depends on whether the pod has a UID).
+func (e *ext) c16ExistingLookupFacts() {
+	arb := "pkg/descheduler/controllers/migration/arbitrator"
+	var out []string
+	fd := e.funcDecl(arb, "filter", "existingPodMigrationJob")
+	if fd == nil || fd.Body == nil {
+		e.fail("filter.existingPodMigrationJob not found")
+	} else {
+		var walk func(n ast.Node, guard int)
+		walk = func(n ast.Node, guard int) {
+			if n == nil {
+				return
+			}
+			ast.Inspect(n, func(m ast.Node) bool {
+				switch v := m.(type) {
+				case *ast.IfStmt:
+					if v.Init != nil {
+						walk(v.Init, guard)
+					}
+					g := 1
+					if c16Mentions(v.Cond, "UID") {
+						g = 2
+					}
+					if guard > g {
+						g = guard
+					}
+					walk(v.Cond, guard)
+					walk(v.Body, g)
+					if v.Else != nil {
+						walk(v.Else, g)
+					}
+					return false
+				case *ast.SelectorExpr:
+					switch v.Sel.Name {
+					case "IndexJobByPodUID":
+						out = append(out, fmt.Sprintf("(1, %d)", guard))
+					case "IndexJobPodNamespacedName":
+						out = append(out, fmt.Sprintf("(2, %d)", guard))
+					}
+				}
+				return true
+			})
+		}
+		walk(fd.Body, 0)
+	}
+	fmt.Fprintf(&e.out, "/-- existingPodMigrationJob: (index looked up: 1 by pod UID, 2 by namespace/name; guard: 0 none, 1 an if that does not look at a UID, 2 an if/else on a UID) in source order -/\ndef arbExistingLookups : List (Nat × Nat) := [%s]\n", strings.Join(out, ", "))
+}
+
+// ---- Descheduler.deschedulerOnce (descheduler.go): the limiter-relevant events in source order, helpers of the package
+// inlined at their call sites: 1 = <…Limiter…>.Reset() outside every loop, 2 = the same inside a for/range loop,
+// 3 = a call of RunDeschedulePlugins, 4 = a call of RunBalancePlugins (consecutive equal events are collapsed).
+func (e *ext) c16CycleFacts() {
+	dir := "pkg/descheduler"
+	var evs []int
+	emit := func(c int) {
+		if len(evs) == 0 || evs[len(evs)-1] != c || c <= 2 {
+			evs = append(evs, c)
+		}
+	}
+	var walk func(n ast.Node, inLoop bool, depth int)
+	walk = func(n ast.Node, inLoop bool, depth int) {
+		if n == nil {
+			return
+		}
+		ast.Inspect(n, func(m ast.Node) bool {
+			switch v := m.(type) {
+			case *ast.ForStmt:
+				walk(v.Init, inLoop, depth)
+				walk(v.Body, true, depth)
+				return false
+			case *ast.RangeStmt:
+				walk(v.X, inLoop, depth)
+				walk(v.Body, true, depth)
+				return false
+			case *ast.CallExpr:
+				name, recv := "", ""
+				switch f := v.Fun.(type) {
+				case *ast.Ident:
+					name = f.Name
+				case *ast.SelectorExpr:
+					name, recv = f.Sel.Name, c16ExprString(f.X)
+				}
+				switch {
+				case name == "Reset" && strings.Contains(recv, "imiter"):
+					if inLoop {
+						emit(2)
+					} else {
+						emit(1)
+					}
+				case name == "RunDeschedulePlugins":
+					emit(3)
+				case name == "RunBalancePlugins":
+					emit(4)
+				case name != "" && depth < 4 && !strings.Contains(recv, "."):
+					// a function of the package, or a method called on a plain identifier (the receiver): inline it
+					var fd *ast.FuncDecl
+					if recv == "" {
+						fd = e.funcDecl(dir, "", name)
+					} else {
+						fd = e.funcDecl(dir, "Descheduler", name)
+					}
+					if fd != nil && fd.Body != nil {
+						walk(fd.Body, inLoop, depth+1)
+						for _, a := range v.Args { // closures passed in are run by the helper: after what the helper does first
+							walk(a, inLoop, depth)
+						}
+						return false
+					}
+				}
+			}
+			return true
+		})
+	}
+	fd := e.funcDecl(dir, "Descheduler", "deschedulerOnce")
+	if fd == nil || fd.Body == nil {
+		e.fail("Descheduler.deschedulerOnce not found")
+	} else {
+		walk(fd.Body, false, 0)
+	}
+	var parts []string
+	for _, c := range evs {
+		parts = append(parts, fmt.Sprint(c))
+	}
+	fmt.Fprintf(&e.out, "/-- deschedulerOnce: 1 limiter Reset outside loops, 2 Reset inside a loop, 3 RunDeschedulePlugins, 4 RunBalancePlugins; source order, package helpers inlined -/\ndef cycleEvents : List Nat := [%s]\n", strings.Join(parts, ", "))
 }
 
 // ---- arbitration facts (filter.go): the skip condition of getUnavailablePods, the retryable filter chain of
